@@ -11,6 +11,17 @@
 //! while a savepoint is valid (H3 snapshot), every savepoint taken is restorable to exactly the state it
 //! captured, page accounting (allocated = reachable + pending-free) and check_integrity.
 //!
+//!
+//! History dimension (kinds cgapr-*, hist-*): whole transactions run before the shared one (tables 1..9, never
+//! touched by the threads; durable and non-durable), the older savepoint (handle 900) is taken before any of
+//! them, and read transactions are begun after chosen ones and stay live across the shared transaction's commit.
+//! Right after the commit (readers and savepoints still live) the page accounting is evaluated (allocated =
+//! reachable + pending-free, DATA_ALLOCATED names allocated pages only) and every reader must still see its snapshot.
+//! Persistent savepoints (kinds psp-*, savepoint handles 500..899 = persistent_savepoint() calls): several threads
+//! call persistent_savepoint() on the shared transaction; after the commit the ids must be distinct, and after a
+//! reopen a new persistent savepoint must get an id nobody holds, and every listed savepoint must restore the state
+//! it captured.
+//!
 //! output: cases.txt (log for the Coq model Conc/Shared.v), impl.txt (what the implementation did), oracle.txt
 
 use redb::{Builder, Database, Durability, MultimapTable, MultimapTableDefinition, ReadableDatabase, ReadableMultimapTable,
@@ -59,6 +70,12 @@ fn is_mm(tb: u64) -> bool {
     tb >= 100
 }
 
+/// savepoint handles 500..899 are created with persistent_savepoint() (the model sees the ephemeral_savepoint()
+/// it starts with: the suffix that persists the record has no pause point of the alphabet)
+fn is_persistent(h: u64) -> bool {
+    (500..900).contains(&h)
+}
+
 impl Call {
     fn text(&self) -> String {
         match self {
@@ -79,6 +96,8 @@ struct Shared {
     /// the one write transaction, leaked for the duration of the threads' phase so that handles can borrow it
     tx: *const WriteTransaction,
     savepoints: Mutex<BTreeMap<u64, Savepoint>>,
+    /// handle -> id returned by persistent_savepoint()
+    persistent: Mutex<BTreeMap<u64, u64>>,
 }
 unsafe impl Send for Shared {}
 unsafe impl Sync for Shared {}
@@ -143,6 +162,14 @@ fn job(sh: Arc<Shared>, call: Call) -> Box<dyn FnOnce() -> String + Send> {
             let b = MTABLES.with(|m| m.borrow_mut().remove(&tb)).is_some();
             if a || b { "ok".into() } else { "ERR(not open)".into() }
         }
+        Call::Savepoint(h) if is_persistent(h) => match sh.tx().persistent_savepoint() {
+            Ok(id) => {
+                sh.persistent.lock().unwrap().insert(h, id);
+                "ok".into()
+            }
+            Err(redb::SavepointError::InvalidSavepoint) => "dirty".into(),
+            Err(e) => format!("ERR({e})"),
+        },
         Call::Savepoint(h) => match sh.tx().ephemeral_savepoint() {
             Ok(sp) => {
                 sh.savepoints.lock().unwrap().insert(h, sp);
@@ -167,7 +194,14 @@ fn job(sh: Arc<Shared>, call: Call) -> Box<dyn FnOnce() -> String + Send> {
 type Spec = BTreeMap<u64, BTreeMap<u64, u64>>;
 type MSpec = BTreeMap<u64, BTreeMap<u64, BTreeSet<u64>>>;
 
-#[derive(Clone)]
+/// one whole transaction of the history before the shared one (main thread): puts / deletes on tables 1..9
+#[derive(Clone, Default)]
+struct PTx {
+    ops: Vec<(u64, u64, Option<u64>)>,
+    nondurable: bool,
+}
+
+#[derive(Clone, Default)]
 struct Scenario {
     id: usize,
     kind: String,
@@ -182,6 +216,14 @@ struct Scenario {
     window: Option<(usize, usize, usize)>,
     /// run the durable commit on a worker, stop it after this many grants and drop a savepoint there
     commit_gap: Option<usize>,
+    /// whole transactions before the shared one
+    prelude: Vec<PTx>,
+    /// the older savepoint (handle 900) is taken before prelude[pre_at] (>= prelude.len(): right before the shared transaction)
+    pre_at: usize,
+    /// read transactions begun after this many prelude transactions, live until after the shared transaction ended
+    readers: Vec<usize>,
+    /// thread `a` gets `k` grants and then nothing until every other thread has finished its program
+    park: Option<(usize, usize)>,
 }
 
 fn open_db(file: &Arc<MemFile>, cache: usize) -> Database {
@@ -193,6 +235,10 @@ fn open_db(file: &Arc<MemFile>, cache: usize) -> Database {
 
 fn read_all(db: &Database, tables: &BTreeSet<u64>) -> Result<(Spec, MSpec), String> {
     let rt = db.begin_read().map_err(|e| format!("begin_read: {e}"))?;
+    read_all_rt(&rt, tables)
+}
+
+fn read_all_rt(rt: &redb::ReadTransaction, tables: &BTreeSet<u64>) -> Result<(Spec, MSpec), String> {
     let (mut s, mut m) = (Spec::new(), MSpec::new());
     for tb in tables {
         if is_mm(*tb) {
@@ -288,6 +334,18 @@ fn accounting(db: &Database) -> Result<(), String> {
     Ok(())
 }
 
+/// what the history before the shared transaction left behind
+#[derive(Default)]
+struct Hist {
+    /// tables 1..9 as of now / as of the older savepoint (handle 900)
+    pspec: Spec,
+    pspec_at_pre: Spec,
+    tables: BTreeSet<u64>,
+    file: Option<Arc<MemFile>>,
+    /// (begun after this many prelude transactions, the reader, tables 1..9 as it must see them)
+    readers: Vec<(usize, redb::ReadTransaction, Spec)>,
+}
+
 struct Outcome {
     log: Vec<String>,
     results: Vec<String>,
@@ -329,17 +387,52 @@ fn execute(sc: &Scenario, ctl: &Arc<Controller>) -> Outcome {
         }
         tx.commit().unwrap();
     }
+    // ---------------- the history before the shared transaction (main thread)
     let mut pre_sp: Option<Savepoint> = None;
-    if sc.pre_savepoint {
-        let tx = db.begin_write().unwrap();
-        pre_sp = Some(tx.ephemeral_savepoint().unwrap());
+    let mut hist = Hist { file: Some(file.clone()), ..Default::default() };
+    for i in 0..=sc.prelude.len() {
+        if sc.readers.contains(&i) {
+            hist.readers.push((i, db.begin_read().unwrap(), hist.pspec.clone()));
+        }
+        if sc.pre_savepoint && pre_sp.is_none() && sc.pre_at.min(sc.prelude.len()) == i {
+            let tx = db.begin_write().unwrap();
+            pre_sp = Some(tx.ephemeral_savepoint().unwrap());
+            tx.commit().unwrap();
+            hist.pspec_at_pre = hist.pspec.clone();
+        }
+        let Some(ptx) = sc.prelude.get(i) else { break };
+        let mut tx = db.begin_write().unwrap();
+        if ptx.nondurable {
+            tx.set_durability(Durability::None).unwrap();
+        }
+        {
+            let mut open: BTreeMap<u64, Table<u64, u64>> = BTreeMap::new();
+            for (tb, k, v) in &ptx.ops {
+                if !open.contains_key(tb) {
+                    let def: TableDefinition<u64, u64> = TableDefinition::new(Box::leak(tname(*tb).into_boxed_str()));
+                    open.insert(*tb, tx.open_table(def).unwrap());
+                }
+                let t = open.get_mut(tb).unwrap();
+                match v {
+                    Some(v) => {
+                        t.insert(k, v).unwrap();
+                        hist.pspec.entry(*tb).or_default().insert(*k, *v);
+                    }
+                    None => {
+                        t.remove(k).unwrap();
+                        hist.pspec.entry(*tb).or_default().remove(k);
+                    }
+                }
+            }
+        }
         tx.commit().unwrap();
     }
+    hist.tables = hist.pspec.keys().copied().collect();
     let base_spec = spec.clone();
     let base_mspec = mspec.clone();
     let tx = db.begin_write().unwrap();
     let txp: *const WriteTransaction = Box::into_raw(Box::new(tx));
-    let sh = Arc::new(Shared { tx: txp, savepoints: Mutex::new(BTreeMap::new()) });
+    let sh = Arc::new(Shared { tx: txp, savepoints: Mutex::new(BTreeMap::new()), persistent: Mutex::new(BTreeMap::new()) });
     if let Some(sp) = pre_sp.take() {
         sh.savepoints.lock().unwrap().insert(900, sp);
     }
@@ -384,7 +477,23 @@ fn execute(sc: &Scenario, ctl: &Arc<Controller>) -> Outcome {
             break;
         }
         // choose
+        let others_done = |a: usize, in_call: &Vec<Option<Call>>, pc: &Vec<usize>| (0..n).all(|t| t == a || (in_call[t].is_none() && pc[t] >= sc.progs[t].len()));
         let t = match window {
+            _ if sc.park.is_some() => {
+                let (a, k) = sc.park.unwrap();
+                let rest: Vec<usize> = enabled.iter().copied().filter(|t| *t != a).collect();
+                if (grants_of_a < k || others_done(a, &in_call, &pc) || rest.is_empty()) && enabled.contains(&a) {
+                    grants_of_a += 1;
+                    a
+                } else if rest.is_empty() {
+                    *rng.pick(&enabled)
+                } else if let Some(l) = last.filter(|l| rest.contains(l) && in_call[*l].is_some()) {
+                    // the others run their calls one after the other (whole calls, random order)
+                    l
+                } else {
+                    *rng.pick(&rest)
+                }
+            }
             Some((a, k, b)) => {
                 if grants_of_a < k && enabled.contains(&a) {
                     a
@@ -544,7 +653,7 @@ fn execute(sc: &Scenario, ctl: &Arc<Controller>) -> Outcome {
             out.violations.push(("c16-end-failed".into(), format!("commit: {done:?}")));
             return out;
         }
-        return finish_checks(sc, db, sh, out, all_tables, spec, mspec, base_spec, base_mspec);
+        return finish_checks(sc, db, sh, out, all_tables, spec, mspec, base_spec, base_mspec, hist);
     }
     let ended: Result<(), String> = rv_harness::catch(|| match sc.end {
         0 => tx.commit().map_err(|e| format!("commit: {e}")),
@@ -559,12 +668,124 @@ fn execute(sc: &Scenario, ctl: &Arc<Controller>) -> Outcome {
         out.violations.push(("c16-end-failed".into(), e));
         return out;
     }
-    finish_checks(sc, db, sh, out, all_tables, spec, mspec, base_spec, base_mspec)
+    finish_checks(sc, db, sh, out, all_tables, spec, mspec, base_spec, base_mspec, hist)
+}
+
+/// Persistent savepoints created by the threads of the shared transaction: distinct ids, listed (or, after an abort,
+/// gone), and after a reopen a new persistent savepoint gets an id nobody holds (C07's `c07_savepoint_ids_fresh` on
+/// the implementation) and every listed savepoint restores what it captured. Leaves the reopened database in `slot`.
+fn persistent_checks(sc: &Scenario, slot: &mut Option<Database>, file: &Arc<MemFile>, pids: &BTreeMap<u64, u64>, with_hist: &BTreeSet<u64>,
+                     captured_ok: &dyn Fn(&Database, &str, bool) -> Result<(), String>) -> Result<(), (String, String)> {
+    let un = |e: String| ("c16-savepoint-unusable".to_string(), e);
+    let ids: Vec<u64> = pids.values().copied().collect();
+    let mut sorted = ids.clone();
+    sorted.sort_unstable();
+    sorted.dedup();
+    if sorted.len() != ids.len() {
+        return Err(("c16-savepoint-id-reused".into(), format!("the persistent_savepoint() calls on the shared transaction returned ids {ids:?} (by handle {:?}): not distinct", pids.keys().collect::<Vec<_>>())));
+    }
+    let expect: Vec<u64> = if sc.end == 2 { vec![] } else { sorted.clone() };
+    let list = |db: &Database| -> Result<Vec<u64>, (String, String)> {
+        let tx = db.begin_write().map_err(|e| un(format!("begin_write: {e}")))?;
+        let mut l: Vec<u64> = tx.list_persistent_savepoints().map_err(|e| un(format!("list_persistent_savepoints: {e}")))?.collect();
+        tx.abort().map_err(|e| un(format!("abort: {e}")))?;
+        l.sort_unstable();
+        Ok(l)
+    };
+    let endname = ["commit", "non-durable commit", "abort"][sc.end as usize];
+    let l = list(slot.as_ref().unwrap())?;
+    if l != expect {
+        return Err(("c16-savepoint-lost".into(), format!("after the {endname} list_persistent_savepoints() = {l:?}, the calls on the shared transaction returned {sorted:?}")));
+    }
+    let tr = slot.as_ref().unwrap().verif_snapshot().tracker;
+    for id in &expect {
+        if !tr.persistent_savepoints.contains(id) || !tr.valid_savepoints.iter().any(|(i, _)| i == id) {
+            return Err(("c16-savepoint-lost".into(), format!("persistent savepoint {id} is not registered with the tracker after the {endname}: valid {:?} persistent {:?}", tr.valid_savepoints, tr.persistent_savepoints)));
+        }
+    }
+    // ---- close and reopen
+    drop(slot.take());
+    *slot = Some(open_db(file, sc.cache));
+    let db = slot.as_ref().unwrap();
+    let l = list(db)?;
+    if l != expect {
+        return Err(("c16-savepoint-lost".into(), format!("after reopening list_persistent_savepoints() = {l:?}, expected {expect:?}")));
+    }
+    let tx = db.begin_write().map_err(|e| un(format!("begin_write: {e}")))?;
+    let new_id = tx.persistent_savepoint().map_err(|e| un(format!("persistent_savepoint after reopening: {e}")))?;
+    if expect.contains(&new_id) {
+        return Err(("c16-savepoint-id-reused".into(), format!("after reopening persistent_savepoint() handed out id {new_id}, which a live savepoint holds (live: {expect:?})")));
+    }
+    let mut l2: Vec<u64> = tx.list_persistent_savepoints().map_err(|e| un(format!("list_persistent_savepoints: {e}")))?.collect();
+    l2.sort_unstable();
+    let mut want = expect.clone();
+    want.push(new_id);
+    want.sort_unstable();
+    if l2 != want {
+        return Err(("c16-savepoint-lost".into(), format!("a new persistent savepoint {new_id} changed the listed savepoints from {expect:?} to {l2:?}")));
+    }
+    tx.commit().map_err(|e| un(format!("commit: {e}")))?;
+    // ---- the new one captured the present state; then the old ones from the newest to the oldest (a restore deletes the newer ones)
+    let before = read_all(db, with_hist).map_err(un)?;
+    let restore = |id: u64| -> Result<(), (String, String)> {
+        let mut tx = db.begin_write().map_err(|e| un(format!("begin_write: {e}")))?;
+        let sp = tx.get_persistent_savepoint(id).map_err(|e| un(format!("get_persistent_savepoint({id}): {e}")))?;
+        tx.restore_savepoint(&sp).map_err(|e| un(format!("restore of persistent savepoint {id}: {e}")))?;
+        drop(sp);
+        tx.commit().map_err(|e| un(format!("commit after restoring persistent savepoint {id}: {e}")))
+    };
+    restore(new_id)?;
+    if read_all(db, with_hist).map_err(un)? != before {
+        return Err(un(format!("restoring persistent savepoint {new_id}, taken in the state the database is in, changed the tables")));
+    }
+    for id in expect.iter().rev() {
+        restore(*id)?;
+        captured_ok(db, &format!("persistent savepoint {id}"), false).map_err(un)?;
+    }
+    let l = list(db)?;
+    let tx = db.begin_write().map_err(|e| un(format!("begin_write: {e}")))?;
+    for id in l {
+        tx.delete_persistent_savepoint(id).map_err(|e| un(format!("delete_persistent_savepoint({id}): {e}")))?;
+    }
+    tx.commit().map_err(|e| un(format!("commit: {e}")))?;
+    Ok(())
 }
 
 #[allow(clippy::too_many_arguments)]
 fn finish_checks(sc: &Scenario, mut db: Database, sh: Arc<Shared>, mut out: Outcome, all_tables: BTreeSet<u64>, spec: Spec, mspec: MSpec,
-                 base_spec: Spec, base_mspec: MSpec) -> Outcome {
+                 base_spec: Spec, base_mspec: MSpec, mut hist: Hist) -> Outcome {
+    let endname = ["commit", "non-durable commit", "abort"][sc.end as usize];
+    // ---------------- right after the end of the shared transaction, everything that pins pages still live
+    match rv_harness::catch(|| accounting(&db)) {
+        Ok(Ok(())) => {}
+        Ok(Err(e)) => out.violations.push(("c16-accounting".into(), format!("right after the {endname} (live: {} read transaction(s), {} savepoint(s)): {e}", hist.readers.len(), sh.savepoints.lock().unwrap().len()))),
+        Err(p) => out.violations.push(("c16-accounting".into(), format!("right after the {endname}: walking the committed state panicked: {p}"))),
+    }
+    // every read transaction begun during the history still sees exactly its snapshot
+    let with_hist: BTreeSet<u64> = all_tables.union(&hist.tables).copied().collect();
+    for (at, rt, pspec) in hist.readers.drain(..) {
+        let r: Result<(), String> = rv_harness::catch(|| {
+            let (got, mgot) = read_all_rt(&rt, &with_hist)?;
+            for tb in &with_hist {
+                let ok = if is_mm(*tb) {
+                    mgot.get(tb).cloned().unwrap_or_default() == base_mspec.get(tb).cloned().unwrap_or_default()
+                } else if hist.tables.contains(tb) {
+                    got.get(tb).cloned().unwrap_or_default() == pspec.get(tb).cloned().unwrap_or_default()
+                } else {
+                    got.get(tb).cloned().unwrap_or_default() == base_spec.get(tb).cloned().unwrap_or_default()
+                };
+                if !ok {
+                    return Err(format!("table {tb} is not what it was when the read transaction began"));
+                }
+            }
+            Ok(())
+        })
+        .unwrap_or_else(|p| Err(format!("panic: {p}")));
+        if let Err(e) = r {
+            out.violations.push(("c16-reader-snapshot".into(), format!("read transaction begun after {at} transaction(s) of the history, read after the shared transaction's {endname}: {e}")));
+        }
+        drop(rt);
+    }
     let (want, mwant) = if sc.end == 2 { (base_spec.clone(), base_mspec.clone()) } else { (spec.clone(), mspec.clone()) };
     match read_all(&db, &all_tables) {
         Ok((got, mgot)) => {
@@ -598,6 +819,18 @@ fn finish_checks(sc: &Scenario, mut db: Database, sh: Arc<Shared>, mut out: Outc
         }
         Err(e) => out.violations.push(("c16-table-contents".into(), format!("reading back failed: {e}"))),
     }
+    if !hist.tables.is_empty() {
+        match read_all(&db, &hist.tables) {
+            Ok((got, _)) => {
+                for tb in &hist.tables {
+                    if got.get(tb).cloned().unwrap_or_default() != hist.pspec.get(tb).cloned().unwrap_or_default() {
+                        out.violations.push(("c16-table-contents".into(), format!("table {tb} (written by earlier transactions only) changed across the shared transaction's {endname}")));
+                    }
+                }
+            }
+            Err(e) => out.violations.push(("c16-table-contents".into(), format!("reading back failed: {e}"))),
+        }
+    }
     // no page in two tables
     {
         let s2 = db.verif_snapshot();
@@ -619,6 +852,40 @@ fn finish_checks(sc: &Scenario, mut db: Database, sh: Arc<Shared>, mut out: Outc
         }
     }
     // every savepoint that exists must be usable: restore gives exactly the state it captured (= before this transaction)
+    // what a savepoint captured: the threads' tables as they were before the shared transaction, tables 1..9 as
+    // they were when it was taken (handle 900: inside the history; every other one: in the shared transaction)
+    let captured_ok = |db: &Database, what: &str, old: bool| -> Result<(), String> {
+        let (got, mgot) = read_all(db, &with_hist)?;
+        for tb in &with_hist {
+            let ok = if is_mm(*tb) {
+                mgot.get(tb).cloned().unwrap_or_default() == base_mspec.get(tb).cloned().unwrap_or_default()
+            } else if hist.tables.contains(tb) {
+                got.get(tb).cloned().unwrap_or_default() == if old { &hist.pspec_at_pre } else { &hist.pspec }.get(tb).cloned().unwrap_or_default()
+            } else {
+                got.get(tb).cloned().unwrap_or_default() == base_spec.get(tb).cloned().unwrap_or_default()
+            };
+            if !ok {
+                return Err(format!("after restoring {what} table {tb} is not what the savepoint captured"));
+            }
+        }
+        Ok(())
+    };
+    let pids: BTreeMap<u64, u64> = sh.persistent.lock().unwrap().clone();
+    if !pids.is_empty() {
+        // the ephemeral ones are not restored in these scenarios (a restore would delete the persistent ones taken after it)
+        sh.savepoints.lock().unwrap().clear();
+        let file = hist.file.clone().unwrap();
+        let mut slot = Some(db);
+        let r: Result<(), (String, String)> = rv_harness::catch(|| persistent_checks(sc, &mut slot, &file, &pids, &with_hist, &captured_ok))
+            .unwrap_or_else(|p| Err(("c16-savepoint-unusable".to_string(), format!("panic: {p}"))));
+        if let Err(ke) = r {
+            out.violations.push(ke);
+        }
+        match slot {
+            Some(d) => db = d,
+            None => return out,
+        }
+    }
     let handles: Vec<u64> = sh.savepoints.lock().unwrap().keys().copied().collect();
     for h in handles {
         let sp = sh.savepoints.lock().unwrap().remove(&h).unwrap();
@@ -626,17 +893,7 @@ fn finish_checks(sc: &Scenario, mut db: Database, sh: Arc<Shared>, mut out: Outc
             let mut tx = db.begin_write().map_err(|e| format!("begin_write: {e}"))?;
             tx.restore_savepoint(&sp).map_err(|e| format!("restore_savepoint: {e}"))?;
             tx.commit().map_err(|e| format!("commit after restore: {e}"))?;
-            let (got, mgot) = read_all(&db, &all_tables)?;
-            for tb in &all_tables {
-                if is_mm(*tb) {
-                    if mgot.get(tb).cloned().unwrap_or_default() != base_mspec.get(tb).cloned().unwrap_or_default() {
-                        return Err(format!("after restoring savepoint {h} multimap table {tb} is not what the savepoint captured"));
-                    }
-                } else if got.get(tb).cloned().unwrap_or_default() != base_spec.get(tb).cloned().unwrap_or_default() {
-                    return Err(format!("after restoring savepoint {h} table {tb} is not what the savepoint captured"));
-                }
-            }
-            Ok(())
+            captured_ok(&db, &format!("savepoint {h}"), h == 900)
         })
         .unwrap_or_else(|p| Err(format!("panic: {p}")));
         drop(sp);
@@ -710,7 +967,7 @@ fn gen_scenarios(rng: &mut Rng, thorough: bool) -> Vec<Scenario> {
                     push(
                         Scenario { id: 0, kind: format!("win-{}-{}-k{k}-{}", if pre { "pre" } else { "nopre" }, end, if rev { "open" } else { "esp" }),
                                    nthreads: 2, progs, pre_savepoint: pre, end, cache: caches[(k + end as usize) % 3],
-                                   sched_seed: rng.next_u64(), window: Some(window), commit_gap: None },
+                                   sched_seed: rng.next_u64(), window: Some(window), commit_gap: None, pre_at: usize::MAX, ..Default::default() },
                         &mut v,
                     );
                 }
@@ -723,7 +980,7 @@ fn gen_scenarios(rng: &mut Rng, thorough: bool) -> Vec<Scenario> {
             let progs = vec![stream(rng, 0, 10), if pre { vec![] } else { vec![Call::Savepoint(1)] }];
             push(
                 Scenario { id: 0, kind: format!("cgap-{}-g{g}", if pre { "pre" } else { "own" }), nthreads: 2, progs, pre_savepoint: pre, end: 0,
-                           cache: caches[g % 3], sched_seed: rng.next_u64(), window: Some((1, 20, 0)), commit_gap: Some(g) },
+                           cache: caches[g % 3], sched_seed: rng.next_u64(), window: Some((1, 20, 0)), commit_gap: Some(g), pre_at: usize::MAX, ..Default::default() },
                 &mut v,
             );
         }
@@ -754,7 +1011,140 @@ fn gen_scenarios(rng: &mut Rng, thorough: bool) -> Vec<Scenario> {
         progs.push(sp);
         push(
             Scenario { id: 0, kind: format!("rand-{nt}"), nthreads: nt, progs, pre_savepoint: pre, end: (i % 3) as u8, cache: caches[i % 3],
-                       sched_seed: rng.next_u64(), window: None, commit_gap: None },
+                       sched_seed: rng.next_u64(), window: None, commit_gap: None, pre_at: usize::MAX, ..Default::default() },
+            &mut v,
+        );
+    }
+    // ---- history x live readers x commit gap: the older savepoint pins the state before T1 (allocates pages) and T2 (unlinks
+    // them) or a later one; read transactions begun before / between / after them stay live; the savepoint is dropped in
+    // every gap of the shared transaction's durable commit
+    let alloc_free = |rng: &mut Rng, n: u64| -> Vec<PTx> {
+        let tb = 1 + rng.below(3);
+        let base = rng.below(1000);
+        let t1 = PTx { ops: (0..n).map(|k| (tb, base + k, Some(rng.below(1000)))).collect(), nondurable: false };
+        let keep = rng.below(3);
+        let t2 = PTx { ops: (keep..n).map(|k| (tb, base + k, None)).collect(), nondurable: false };
+        vec![t1, t2]
+    };
+    let reader_sets: [&[usize]; 5] = [&[2], &[1, 2], &[1], &[0], &[0, 2]];
+    for pre_at in 0..3usize {
+        for rs in reader_sets {
+            for g in 0..=22usize {
+                if thorough || (g + pre_at + rs.len()) % 2 == 0 || (3..=12).contains(&g) {
+                    let prelude = alloc_free(rng, 150 + 50 * (g as u64 % 4));
+                    let progs = vec![stream(rng, 0, 6), vec![]];
+                    push(
+                        Scenario { id: 0, kind: format!("cgapr-sp{pre_at}-r{}-g{g}", rs.iter().map(|x| x.to_string()).collect::<Vec<_>>().join("")), nthreads: 2, progs,
+                                   pre_savepoint: true, end: 0, cache: caches[g % 3], sched_seed: rng.next_u64(), window: None, commit_gap: Some(g),
+                                   prelude, pre_at, readers: rs.to_vec(), park: None },
+                        &mut v,
+                    );
+                }
+            }
+        }
+    }
+    // ---- random histories: 1-4 earlier transactions (durable / non-durable), older savepoint anywhere, readers anywhere,
+    // threads with their own savepoints, any end, a savepoint dropped inside the commit or not
+    let nhist = if thorough { 1500 } else { 120 };
+    for i in 0..nhist {
+        let np = rng.range(1, 4) as usize;
+        let mut prelude = vec![];
+        for _ in 0..np {
+            if rng.chance(1, 3) {
+                let n = 40 + rng.below(200);
+                prelude.extend(alloc_free(rng, n));
+            } else {
+                let tb = 1 + rng.below(3);
+                let nops = 1 + rng.below(120);
+                let ops = (0..nops).map(|_| (tb, rng.below(300), if rng.chance(2, 3) { Some(rng.below(1000)) } else { None })).collect();
+                prelude.push(PTx { ops, nondurable: rng.chance(1, 3) });
+            }
+        }
+        let pre = rng.chance(3, 4);
+        let pre_at = rng.below(prelude.len() as u64 + 1) as usize;
+        let readers: Vec<usize> = (0..=prelude.len()).filter(|_| rng.chance(1, 3)).collect();
+        let gap = if rng.chance(2, 3) { Some(rng.below(20) as usize) } else { None };
+        let nt = 2 + (i % 2);
+        let mut progs = vec![];
+        for t in 0..nt - 1 {
+            let nops = 3 + rng.below(8) as usize;
+            progs.push(stream(rng, t, nops));
+        }
+        let mut sp = vec![];
+        if !pre || rng.chance(1, 2) {
+            sp.push(Call::Savepoint(1));
+            if rng.chance(1, 3) {
+                sp.push(Call::Savepoint(2));
+            }
+            if pre && rng.chance(1, 3) {
+                sp.push(Call::DropSavepoint(900));
+            }
+        }
+        progs.push(sp);
+        let end = if gap.is_some() { 0 } else { (i % 3) as u8 };
+        push(
+            Scenario { id: 0, kind: format!("hist-{nt}-p{}-sp{}-r{}-{}", prelude.len(), if pre { pre_at.to_string() } else { "x".into() },
+                                            readers.iter().map(|x| x.to_string()).collect::<Vec<_>>().join(""), gap.map(|g| format!("g{g}")).unwrap_or_else(|| format!("e{end}"))),
+                       nthreads: nt, progs, pre_savepoint: pre, end, cache: caches[i % 3], sched_seed: rng.next_u64(),
+                       window: if gap.is_some() { Some((nt - 1, 30, 0)) } else { None }, commit_gap: gap, prelude, pre_at, readers, park: None },
+            &mut v,
+        );
+    }
+    // ---- persistent savepoints from several threads of the shared transaction. Directed: thread a is stopped after k grants
+    // (inside persistent_savepoint(), before / after its id was allocated) until all the others have finished theirs
+    for nsp in [3usize, 4] {
+        for a in 0..nsp {
+            for k in 1..=8usize {
+                for end in [0u8, 2] {
+                    if end == 2 && !(thorough || k == 6) {
+                        continue;
+                    }
+                    let progs: Vec<Vec<Call>> = (0..nsp).map(|t| vec![Call::Savepoint(500 + t as u64)]).collect();
+                    push(
+                        Scenario { id: 0, kind: format!("psp-park-n{nsp}-a{a}-k{k}-e{end}"), nthreads: nsp, progs, pre_savepoint: (a + k) % 3 == 0, end,
+                                   cache: caches[(a + k) % 3], sched_seed: rng.next_u64(), window: None, commit_gap: None, prelude: vec![], pre_at: usize::MAX,
+                                   readers: vec![], park: Some((a, k)) },
+                        &mut v,
+                    );
+                }
+            }
+        }
+    }
+    // random: 3-4 threads, 1-2 persistent (sometimes ephemeral) savepoints each, sometimes a table thread (first open = dirty: later ones refused)
+    let npsp = if thorough { 1200 } else { 100 };
+    for i in 0..npsp {
+        let nt = 3 + (i % 2);
+        let with_tables = rng.chance(1, 4);
+        let mut progs = vec![];
+        let mut h = 500u64;
+        let mut e = 1u64;
+        for t in 0..nt {
+            if with_tables && t == 0 {
+                let nops = 3 + rng.below(4) as usize;
+                progs.push(stream(rng, 0, nops));
+                continue;
+            }
+            let mut p = vec![];
+            for _ in 0..rng.range(1, 2) {
+                if rng.chance(1, 6) {
+                    p.push(Call::Savepoint(e));
+                    if rng.chance(1, 2) {
+                        p.push(Call::DropSavepoint(e));
+                    }
+                    e += 1;
+                } else {
+                    p.push(Call::Savepoint(h));
+                    h += 1;
+                }
+            }
+            progs.push(p);
+        }
+        let np = rng.below(3) as usize;
+        let prelude: Vec<PTx> = (0..np).map(|_| { let tb = 1 + rng.below(3); PTx { ops: (0..1 + rng.below(60)).map(|_| (tb, rng.below(100), Some(rng.below(1000)))).collect(), nondurable: false } }).collect();
+        push(
+            Scenario { id: 0, kind: format!("psp-rand-{nt}{}", if with_tables { "-tables" } else { "" }), nthreads: nt, progs, pre_savepoint: rng.chance(1, 4),
+                       end: if i % 5 == 4 { 2 } else { 0 }, cache: caches[i % 3], sched_seed: rng.next_u64(), window: None, commit_gap: None,
+                       pre_at: rng.below(np as u64 + 1) as usize, readers: if rng.chance(1, 3) { vec![np] } else { vec![] }, prelude, park: None },
             &mut v,
         );
     }
